@@ -50,9 +50,10 @@ def check_pattern(pat):
 
 DEP5_HEAD = "Format: https://www.debian.org/doc/packaging-manuals/copyright-format/1.0/\nUpstream-Name: x\nUpstream-Contact: y\nSource: z\n"
 PARAS = [("*", "2001 Jane", "MIT"), ("src/*", "2002 John", "0BSD"), ("src/vendor/jane.dat", "2001 Jane", "MIT"), ("doc/*.md docs/*", "2003 Doc", "CC0-1.0"),
-         ("src/*.c", "2004 C People", "ISC"), ("*.dat", "2002 John", "0BSD"), ("src/vendor/*", "2005 Vendor", "Apache-2.0")]
+         ("src/*.c", "2004 C People", "ISC"), ("*.dat", "2002 John", "0BSD"), ("src/vendor/*", "2005 Vendor", "Apache-2.0"),
+         (".github/* .editorconfig", "2006 Dot Files", "Unlicense")]
 FILES = ["top.txt", "a.dat", "src/main.c", "src/util.py", "src/vendor/jane.dat", "src/vendor/lib.c", "doc/a.md", "doc/b.txt", "docs/deep/x.md",
-         "other/deep/f.dat"]
+         "other/deep/f.dat", ".github/w.yml", ".github/deep/x.yml", ".editorconfig"]
 
 
 def conversion_end_to_end(tier):
